@@ -15,6 +15,13 @@ block's current value; the number of transitions is the configured one; blocks a
 parameter order; the stored tuple is the post-sweep tuple; a later call continues from the last
 stored values; a cached target evaluation a sampler starts from is that of the handed target at
 the current point.
+
+Further tie streams (session 3), each against its own model file: `tg` — par_names and the class / densities / free variables
+of every object handed to a block sampler (Model/C09_target.lean on top of C01's JointDistribution model; all recorded runs and a
+zoo of random model graphs); `W<tune_freq>!<Nb>` calls — every tuning call of every warm-up (Model/C09_tune.lean); `ls` — legacy
+strategy parsing and the KeyError of a block without sampler (Model/C09_strategy.lean); `sh` — type / shape of the stored objects
+and the assembly by get_samples() (Model/C09_shape.lean); `ar` — every legacy block's sample array replayed operation by
+operation (Model/C09_array.lean).
 """
 import math, contextlib
 import numpy as np
@@ -611,14 +618,15 @@ def run_hybrid(ctx, cuqi, idx, rs, thorough, stats):
     if idx % 20 == 7:
         # phase lengths straddling the literal constants of the module: tune_interval = max(int(tune_freq*Nb), 1) changes
         # at Nb = 10, 20; a later warm-up phase after sampling
-        calls = [("warmup", int(rs.choice([9, 10, 11, 19, 20, 21])), None), ("sample", 1, None), ("warmup", int(rs.choice([1, 2, 10])), None)]
+        # ... and a sampling phase that is sometimes longer than any constant a loop could hide behind (10, 16)
+        calls = [("warmup", int(rs.choice([9, 10, 11, 19, 20, 21])), None), ("sample", int(rs.choice([1, 11, 17])), None), ("warmup", int(rs.choice([1, 2, 10])), None)]
     how = {"ctor": str(rs.choice(["positional", "keyword"])), "calls": str(rs.choice(["positional", "keyword"])),
-           "tune_freq": float(rs.choice([0.1, 0.5, 1.0, 0.25, 0.3, 0.6, 0.7, 0.34, 0.0, 2.0]))}
+           "tune_freq": float(rs.choice([0.1, 0.5, 1.0, 0.25, 0.3, 0.6, 0.7, 0.34, 0.0, 2.0, -0.5]))}
     if idx % 20 == 7 and rs.rand() < 0.7:
         # the binary64 product tune_freq*Nb is an integer although the exact product of the float lies just below it
         tf_, nb_ = [(0.3, 10), (0.7, 10), (0.15, 20), (0.6, 10), (0.35, 20), (0.3, 20)][int(rs.randint(6))]
         how["calls"], how["tune_freq"] = "keyword", tf_
-        calls = [("warmup", nb_, None), ("sample", 1, None), ("warmup", int(rs.choice([1, 2, 5])), None)]
+        calls = [("warmup", nb_, None), ("sample", int(rs.choice([1, 11, 17])), None), ("warmup", int(rs.choice([1, 2, 5])), None)]
     elif idx % 9 == 4:
         how["calls"], how["tune_freq"] = "keyword", 0.6
         calls = [("warmup", 5, None), ("sample", 1, None)]          # int(0.6*5) == 3, the exact product is 2.9999…
